@@ -23,3 +23,10 @@ def body(rec, c):
 
 CHECKS = [Check("history", body, lambda: {"c": config_case(**KW)}, quick=10, thorough=160, quick_shards=16,
                 thorough_shards=16, shrink_quick=False)]
+
+from . import C07_slice  # noqa: E402  (helper part: the shared time-slicing helper on directly drawn units)
+CHECKS = CHECKS + C07_slice.CHECKS
+RULE += (" Sub-check time_slice_helper: BasicEventHandler._time_slice_all_units_in_state on directly drawn units (positions "
+         "incl. exactly 0.0 and the largest float below L, velocity components incl. the 1e-17..1e-13 residues of rotations "
+         "by multiples of 90 degrees, time displacements over twelve decades); oracle (Fractions): every coordinate in "
+         "[0, L) and congruent to p + v*dt modulo L, resting units untouched, time stamp == event time.")
